@@ -31,6 +31,7 @@ std::vector<double> GenerateStochasticDistribution (std::vector<double> mesh_x, 
 
   std::vector<double> mesh_x_sto = std::vector<double>(mesh_x.size(), 0);
   std::vector<double> tot_species(n_species, 0);
+  std::vector<double> totreal_species(n_species, 0); // totals before flooring : range of the cumulative search of step 5
   std::vector<double> tot2_species(n_species, 0);
   std::vector<double> dtot_species(n_species, 0);
 
@@ -46,6 +47,7 @@ std::vector<double> GenerateStochasticDistribution (std::vector<double> mesh_x, 
 
   for(int i=0; i<n_species; i++)
     {
+    totreal_species[i] = tot_species[i];
     tot_species[i] = std::floor(tot_species[i]);
     }
 
@@ -101,7 +103,7 @@ std::vector<double> GenerateStochasticDistribution (std::vector<double> mesh_x, 
     for(;;)
       {
       double cumul = 0;
-      double target = uiud(rng) * tot_species[s];
+      double target = uiud(rng) * totreal_species[s];
 
       for(int i=0; i<n_meshes; i++)
         {
